@@ -13,6 +13,17 @@ import (
 
 const repoRoot = "/repo"
 
+// outRoot is where evidence and replay files go: /verif normally, a scratch
+// directory when the check runs against an alternative repository copy.
+func outRoot() string {
+	if os.Getenv("VERIF_REPO") != "" {
+		d := envOr("VERIF_OUT", "/tmp/verif-alt-out")
+		os.MkdirAll(d, 0o755)
+		return d
+	}
+	return verifRoot()
+}
+
 func verifRoot() string {
 	if v := os.Getenv("VERIF_ROOT"); v != "" {
 		return v
@@ -89,6 +100,17 @@ func main() {
 		os.Exit(runDeterminism(args[0], *tier, *runs))
 	case "warm":
 		os.Exit(runWarm())
+	case "overlay": // verifctl overlay <engine> <scratch dir>: write the import-swap overlay and print its path
+		if len(args) < 2 {
+			usage()
+		}
+		os.MkdirAll(args[1], 0o755)
+		p, err := buildOverlay(repoRoot, args[1], engineSwaps[args[0]])
+		if err != nil {
+			fmt.Fprintln(os.Stderr, err)
+			os.Exit(2)
+		}
+		fmt.Println(p)
 	case "trace":
 		if len(args) < 2 {
 			usage()
